@@ -13,7 +13,7 @@ from . import stage as stage_mod
 import base64
 import pickle
 
-from .pool import Pool, Crash, InternalError, LibraryRaised, NPROC
+from .pool import Pool, Crash, InternalError, LibraryRaised, WorkerCrashed, NPROC
 
 VERIF = stage_mod.VERIF
 PROPS = ['C%02d' % i for i in range(1, 21)]
@@ -75,7 +75,14 @@ class Ctx:
         # VERIF_SEED only rotates the dispatch order; results are merged in
         # index order, so the verdict and the counts do not depend on it.
         self.rng.shuffle(order)
-        return self.pool(impl, **kw).map(mod or self.mod, fn, args, order=order)
+        pool = self.pool(impl, **kw)
+        res = pool.map(mod or self.mod, fn, args, order=order)
+        for a, r in zip(args, res):
+            if isinstance(r, Crash):
+                # the interpreter died under the library: a violation in its own
+                # right (confirmed from a fresh process like every other one)
+                raise WorkerCrashed(mod or self.mod, fn, a, r, pool.env)
+        return res
 
     def close(self):
         for p in self._pools.values():
@@ -139,11 +146,30 @@ def _replay_call(p, mod, case):
         rc = case['raw_call']
         arg = pickle.loads(base64.b64decode(rc['arg_pickle_b64']))
         try:
-            p.call(mod, rc['fn'], arg)
+            r = p.call(mod, rc['fn'], arg)
         except LibraryRaised as e:
             return dict(library_raised=e.typ, traceback_tail=e.tb[-1500:])
+        if isinstance(r, Crash):
+            return dict(interpreter_crashed=r.returncode, stderr_tail=r.stderr_tail[-1500:])
         return None
     return p.call(mod, 'replay', case)
+
+
+def worker_crashed(ctx, e):
+    """The interpreter died while a worker evaluated part of the explored space."""
+    impl = 'py' if e.env.get('PURE_PYTHON') == '1' else 'c'
+    extra = {k: v for k, v in e.env.items() if k.startswith('ZOPE_INTERFACE_')}
+    ctx.violation(dict(
+        impl=impl, env=extra or None, hashseed=e.env.get('PYTHONHASHSEED', '0'), crash=True,
+        sig='%s:interpreter-crash' % ctx.pid,
+        case=dict(raw_call=dict(
+            fn=e.fn, arg_pickle_b64=base64.b64encode(pickle.dumps(e.arg, protocol=4)).decode())),
+        detail=dict(what='the interpreter running zope.interface died while the check was exploring',
+                    worker_function=e.fn, returncode=e.crash.returncode,
+                    stderr_tail=e.crash.stderr_tail[-1800:])))
+    ctx.cap('exploration aborted when the interpreter crashed')
+    return finish(ctx, 'model_checking',
+                  'aborted: the interpreter crashed inside %s.%s' % (ctx.mod, e.fn), 'n/a (aborted run)')
 
 
 def library_raised(ctx, e):
@@ -296,6 +322,12 @@ def main(argv=None):
     mod = importlib.import_module('vlib.props.' + pid.lower())
     try:
         return mod.run(ctx)
+    except WorkerCrashed as e:
+        try:
+            return worker_crashed(ctx, e)
+        except InternalError as e2:
+            print('INTERNAL ERROR in checker for %s: %s' % (pid, e2), file=sys.stderr)
+            return 2
     except LibraryRaised as e:
         try:
             return library_raised(ctx, e)
